@@ -27,8 +27,11 @@ def is_generated(b):
     return '_serde::' in n or '::_::<impl' in n
 
 
-def classify(decl, res, selfty):
+def classify(decl, res, selfty, gargs=''):
     name = res or decl
+    if re.match(r'^core::tuple::<impl core::cmp::(Ord|PartialOrd|PartialEq|Eq) for \(.*\)>::\w+$', name) and \
+            re.match(r'^\[\((usize|isize|u\d+|i\d+|bool|char)(, (usize|isize|u\d+|i\d+|bool|char))*,?\)\]$', gargs or ''):
+        return 'total'      # comparison of tuples of primitives
     m = re.match(r'^<&(mut )?T as (bytes::Buf(Mut)?)>::(\w+)$', name)
     if m:
         # forwarding impl of bytes (`impl BufMut for &mut T`): classified as the trait method it forwards to
@@ -706,11 +709,11 @@ def p_len_fits_u16(site):
                     # len(data) > u16::MAX must have been refused
                     good = False
                     for c in q.conds_before(p, i):
-                        ex = c['expr']
-                        if ex[0] == 'binop' and ex[1] == 'Gt' and q.cond_truth(c) is False:
-                            rhs = q.peel(ex[3])
+                        nrm = q.cmp_norm(c)       # `len <= k` in any spelling
+                        if nrm and nrm[0] == 'ge':
+                            rhs = q.peel(nrm[1])
                             if rhs[0] == 'const' and rhs[2] is not None and rhs[2] <= 65535 and \
-                                    ex[2][0] == 'call' and calls[ex[2][1]]['res'].endswith('::len'):
+                                    nrm[2][0] == 'call' and nrm[2][1] in calls and calls[nrm[2][1]]['res'].endswith('::len'):
                                 good = True
                     if not good:
                         return False, 'add_broadcast accepts items longer than u16::MAX (length prefix is 16 bits)'
@@ -1132,7 +1135,7 @@ def check(ctx):
                     if tgt and all(is_ctor_or_local(f, x) for x in tgt):
                         counts['total'] += 1
                         continue
-                cls = classify(raw['decl'], raw['res'], raw['term'].get('selfty', ''))
+                cls = classify(raw['decl'], raw['res'], raw['term'].get('selfty', ''), raw['term'].get('gargs', ''))
                 if cls is None:
                     unclassified.setdefault(raw['res'] or raw['decl'], []).append(raw)
                     continue
